@@ -22,8 +22,8 @@ theorem inv_openFt {v : Variant} {w : World} (h : Inv v w) (i : Nat) (hi : i ∈
       split
       · rename_i hcond
         refine inv_of_same h rfl rfl rfl ?_
-        obtain ⟨k1, k2, k3, k4, k5, k6⟩ := h.counters
-        refine ⟨k1, k2, k3, k4, ?_, k6⟩
+        obtain ⟨k1, k2, k3, k4, k5, k6, k7⟩ := h.counters
+        refine ⟨k1, k2, k3, k4, ?_, k6, k7⟩
         intro hv; simp [hv] at hcond
       · exact h
     apply inv_modConn_live h1 i _ (by split <;> exact hi)
@@ -61,14 +61,29 @@ theorem inv_closeOthers {v : Variant} {w : World} (h : Inv v w) (i : Nat) (l : L
   | none => rfl
   | some c => simp only [modConn_list]; split <;> rfl
 
+theorem inv_setPtr {v : Variant} {w : World} (h : Inv v w) (o : Option Nat)
+    (ho : ∀ j, o = some j → j ∈ w.list) : Inv v { w with ptrOwner := o } :=
+  ⟨h.nodup, h.bound, h.live, h.dead, h.counters, h.refs, h.scr, h.main, ho⟩
+
 theorem inv_msgEffect {v : Variant} {w : World} (h : Inv v w) (i : Nat) (m : Msg) (hi : i ∈ w.list) :
     Inv v (msgEffect v w i m) := by
   cases m with
   | ver => exact inv_modConn_proto h i _ (by intro c; simp)
   | sec => exact inv_modConn_proto h i _ (by intro c; simp)
+  | auth ok =>
+    simp only [msgEffect]
+    split
+    · exact inv_modConn_proto h i _ (by intro c; simp)
+    · exact inv_closeClient h i
   | init sh =>
     simp only [msgEffect]
-    have h1 := inv_modConn_proto h i (fun c => { c with st := .normal }) (by intro c; simp)
+    have h0 : Inv v (match w.conns[i]? with
+        | some c => if c.exts > 0 then emit w (.xinit i) else w
+        | none => w) := by
+      cases w.conns[i]? with
+      | none => exact h
+      | some c => simp only; split; exact inv_emit h _; exact h
+    have h1 := inv_modConn_proto h0 i (fun c => { c with st := .normal }) (by intro c; simp)
     split
     · exact h1
     · exact inv_closeOthers h1 i _
@@ -90,19 +105,59 @@ theorem inv_msgEffect {v : Variant} {w : World} (h : Inv v w) (i : Nat) (m : Msg
       split
       · exact inv_closeClient h1 i
       · exact h1
+  | ptr down =>
+    simp only [msgEffect]
+    have hset : Inv v { w with ptrOwner := if down = true then some i else none } := by
+      apply inv_setPtr h
+      intro j hj
+      split at hj
+      · cases hj; exact hi
+      · cases hj
+    cases w.ptrOwner with
+    | none => exact hset
+    | some j => simp only; split; exact h; exact hset
   | junk => exact inv_closeClient h i
   | part => exact inv_closeClient h i
   | ft => exact inv_openFt h i hi
+  | ftgo => exact inv_modConn_live h i _ hi (by intro c; simp)
   | eof => exact inv_closeClient h i
 
 theorem msgEffect_list (v : Variant) (w : World) (i : Nat) (m : Msg) :
     (msgEffect v w i m).list = w.list := by
-  cases m <;> simp only [msgEffect, modConn_list, closeClient_list, openFt_list]
-  · split <;> simp
-  · split <;> simp
-  · cases (emit w (.kbd i)).conns[i]? with
+  cases m with
+  | auth ok => simp only [msgEffect]; split <;> simp
+  | init sh =>
+    simp only [msgEffect]
+    have h0 : (match w.conns[i]? with
+        | some c => if c.exts > 0 then emit w (.xinit i) else w
+        | none => w).list = w.list := by
+      cases w.conns[i]? with
+      | none => rfl
+      | some c => simp only; split <;> rfl
+    split
+    · rw [modConn_list]; exact h0
+    · rw [closeOthers_list, modConn_list]; exact h0
+  | scale k => simp only [msgEffect]; split <;> simp
+  | key =>
+    simp only [msgEffect]
+    cases (emit w (.kbd i)).conns[i]? with
     | none => rfl
     | some c => simp only; split <;> simp
+  | ptr down =>
+    simp only [msgEffect]
+    cases w.ptrOwner with
+    | none => rfl
+    | some j => simp only; split <;> rfl
+  | ver => simp [msgEffect]
+  | sec => simp [msgEffect]
+  | enc => rfl
+  | req => rfl
+  | pf => rfl
+  | junk => simp [msgEffect]
+  | part => simp [msgEffect]
+  | ft => simp [msgEffect]
+  | ftgo => simp [msgEffect]
+  | eof => simp [msgEffect]
 
 theorem inv_procMsg {v : Variant} {w : World} (h : Inv v w) (i : Nat) (x : Fail) (r : Res)
     (hi : i ∈ w.list) : Inv v (procMsg v w i x r) := by
@@ -174,7 +229,9 @@ theorem inv_checkFds {v : Variant} {w : World} (h : Inv v w) (xs : Ann) (rs : Re
     · rename_i hr
       apply ih
       exact inv_procMsg h i _ _ (listed_of_open h i (ready_open w i hr))
-    · exact ih h xs
+    · split
+      · exact ih (inv_closeClient h i) _
+      · exact ih h xs
 
 theorem inv_reap {v : Variant} {w : World} (h : Inv v w) (l : List Nat) : Inv v (reap v w l) := by
   induction l generalizing w with
@@ -220,7 +277,11 @@ theorem inv_shutOne {v : Variant} (w : World) (i : Nat) (h : Inv v w) : Inv v (s
   unfold shutOne
   split
   · rename_i hc
-    exact inv_gone (inv_closeClient h i) i (by simpa using hc)
+    have h1 : Inv v (if isOpen w i = true then closeClient w i else w) := by
+      split
+      · exact inv_closeClient h i
+      · exact h
+    exact inv_gone h1 i (by split <;> simpa using hc)
   · exact h
 
 theorem inv_cleanOne {v : Variant} (w : World) (i : Nat) (h : Inv v w) : Inv v (cleanOne v w i) := by
@@ -236,8 +297,8 @@ theorem shutOne_list {v : Variant} (w : World) (i : Nat) (h : Inv v w) :
   split
   · rename_i hc
     have hi : i ∈ w.list := by simpa using hc
-    rw [gone_list v _ i (by simpa using h.bound i hi)]
-    simp
+    rw [gone_list v _ i (by split <;> simpa using h.bound i hi)]
+    split <;> simp
   · rename_i hc
     have hi : i ∉ w.list := by simpa using hc
     exact (List.erase_of_not_mem hi).symm
@@ -292,8 +353,8 @@ theorem inv_shutdown {v : Variant} {w : World} (h : Inv v w) : Inv v (shutdown v
   rw [shutdown_eq]
   have h1 := inv_sweep (shutOne v) (fun w i => inv_shutOne w i) w h w.list
   refine inv_of_same h1 rfl rfl rfl ?_
-  obtain ⟨k1, k2, k3, k4, k5, k6⟩ := h1.counters
-  refine ⟨k1, ?_, k3, k4, k5, k6⟩
+  obtain ⟨k1, k2, k3, k4, k5, k6, k7⟩ := h1.counters
+  refine ⟨k1, ?_, k3, k4, k5, k6, k7⟩
   intro hv
   have := sweep_all_gone hv (shutOne v) (fun w i => inv_shutOne w i) (fun w i => shutOne_list w i) h
   simp [this, k2 hv]
@@ -302,8 +363,8 @@ theorem inv_cleanup {v : Variant} {w : World} (h : Inv v w) : Inv v (cleanup v w
   rw [cleanup_eq]
   have h1 := inv_sweep (cleanOne v) (fun w i => inv_cleanOne w i) w h w.list
   refine inv_of_same h1 rfl rfl rfl ?_
-  obtain ⟨k1, k2, k3, k4, k5, k6⟩ := h1.counters
-  refine ⟨k1, ?_, k3, k4, k5, k6⟩
+  obtain ⟨k1, k2, k3, k4, k5, k6, k7⟩ := h1.counters
+  refine ⟨k1, ?_, k3, k4, k5, k6, k7⟩
   intro hv
   have := sweep_all_gone hv (cleanOne v) (fun w i => inv_cleanOne w i) (fun w i => cleanOne_list w i) h
   simp [this, k2 hv]
@@ -348,6 +409,7 @@ theorem inv_step {v : Variant} {w : World} (h : Inv v w) (op : Op) : Inv v (step
   | kbdClose i => exact inv_modConn_proto h i _ (by intro c; simp)
   | goneKick i k => exact inv_modConn_proto h i _ (by intro c; simp)
   | ext => exact inv_of_same h rfl rfl rfl h.counters
+  | pw => exact inv_of_same h rfl rfl rfl h.counters
   | shutdown => exact inv_shutdown h
   | cleanup => exact inv_cleanup h
 
